@@ -106,9 +106,9 @@ func builtinPrograms() []program {
 }
 
 var matches = []*match{
-	{Groups: []string{"a" + nul + "b" + nul + "c", "x,y", "2021-03-04 05:06:07"}, Keys: map[string]string{"k": "b", "n": "2"}},
-	{Groups: []string{"p" + nul + "q", "1,2,3", "2020-11-12 13:14:15"}, Keys: map[string]string{"k": "q", "n": "3"}},
-	{Groups: []string{"", "z", "1999-12-31 23:59:59"}, Keys: map[string]string{"k": "", "n": "1"}},
+	{Groups: []string{"a" + nul + "b" + nul + "c", "x,y", "2021-03-04 05:06:07", "7", "2021-03-04 05:06:07"}, Keys: map[string]string{"k": "b", "n": "2"}},
+	{Groups: []string{"p" + nul + "q", "1,2,3", "2020-11-12 13:14:15", "40", "-"}, Keys: map[string]string{"k": "q", "n": "3"}},
+	{Groups: []string{"", "z", "1999-12-31 23:59:59", "x", "1999-12-31 23:59:59"}, Keys: map[string]string{"k": "", "n": "1"}},
 }
 
 type program struct {
@@ -137,6 +137,12 @@ var programs = []program{
 	{"C10", "time-cached-format", "", `{timeformat {time {2}} RFC3339}`, ""},
 	{"C10", "time-in-funcs", "ts {time {0}}\n", `{ts {2}}/{ts {2}}`, ""},
 	{"C10", "const-fold-mixed", "", `{sumi 1 2}{upper {k}}{@len {@split "a,b" ,}}{coalesce "" {n}}`, ""},
+	// formulas: numeric and non-numeric bindings (the error branch) share the per-stage context pool
+	{"C10", "math-formula", "", `{! [3] * 2 + n}`, ""},
+	{"C10", "math-in-funcs", "add2 {! [0] + [1]}\n", `{add2 {add2 {3} {n}} {3}}`, ""},
+	{"C10", "pair/math-vs-math", "", `{! [3] + 1}`, `{! n * [3]}`},
+	// the cached time format next to entries that are not dates
+	{"C10", "time-cached-format-with-garbage", "", `{time {4}}`, ""},
 	// two different expressions at once
 	{"C17", "pair/map-vs-reduce", "", `{@map {0} "{0}{k}"}`, `{@reduce {0} "{0}{1}" {k}}`},
 	{"C17", "pair/nested-map-vs-filter", "", `{@map {@split {1} ,} "{@join {@map {0} {0}{k}} +}"}`, `{@filter {0} {eq {0} {k}}}`},
@@ -148,7 +154,8 @@ var programs = []program{
 type Case struct {
 	Program  program  `json:"program"`
 	Optimize bool     `json:"optimize"`
-	Gs       []int    `json:"goroutines"` // index of the match each goroutine evaluates
+	Gs       []int    `json:"goroutines"`          // index of the match each goroutine evaluates
+	Pool     int      `json:"pool_size,omitempty"` // objects in the shared sub-context pool at the start (0 = the default of 5; -1 = empty)
 	Vector   []int    `json:"vector"`
 	Trace    []string `json:"schedule,omitempty"`
 }
@@ -220,7 +227,14 @@ const evalsPerGoroutine = 2
 
 func run(ex vrt.Chooser, c *Case, trace bool) (*obs, *vrt.Result) {
 	o := &obs{results: make([][]string, len(c.Gs))}
-	stdlib.VerifResetPools()
+	switch {
+	case c.Pool == 0:
+		stdlib.VerifResetPools()
+	case c.Pool < 0:
+		stdlib.VerifResetPoolsN(0)
+	default:
+		stdlib.VerifResetPoolsN(c.Pool)
+	}
 	res := vrt.Run(ex, vrt.Options{Race: true, Trace: trace}, func() {
 		compiledA, compiledB, err := compile2(&c.Program, c.Optimize)
 		if err != nil {
@@ -334,9 +348,26 @@ func worker(w *runner.W) {
 		if !w.Quick() {
 			groups = append(groups, []int{0, 1, 2})
 		}
+		type variant struct {
+			optimize bool
+			gs       []int
+			pool     int
+		}
+		var variants []variant
 		for _, optimize := range []bool{true, false} {
 			for _, gs := range groups {
-				c := &Case{Program: p, Optimize: optimize, Gs: gs}
+				variants = append(variants, variant{optimize, gs, 0})
+			}
+		}
+		if strings.Contains(p.Template, "{@") || strings.Contains(p.Funcs, "{@") {
+			// the shared sub-context pool nearly empty / empty at the start
+			variants = append(variants, variant{true, []int{0, 1}, 1}, variant{true, []int{0, 1}, -1}, variant{false, []int{1, 0}, 1})
+		}
+		for _, v := range variants {
+			optimize := v.optimize
+			{
+				gs := v.gs
+				c := &Case{Program: p, Optimize: optimize, Gs: gs, Pool: v.pool}
 				b := bound
 				if len(gs) > 2 {
 					b = bound - 1
@@ -530,7 +561,7 @@ func main() {
 		Properties: []string{"C10", "C17"},
 		Level:      "model_checking",
 		Rule: func(prop, tier string) string {
-			return "one compiled expression per program (C17: @map/@filter/@reduce/@for/@slice/@in with named keys, nested map inside map and inside filter; C10: funcs-file functions with 1-3 arguments, nested calls and missing arguments, the cached time format, mixed constant folding; plus pair programs in which the goroutines with an odd index evaluate a SECOND, different expression compiled by the same builder - map vs reduce, nested map vs filter, @for vs map, two funcs-file functions, a funcs function vs builtins: different compiled expressions share the package-level pools; each compiled with and without optimisation) evaluated twice by each of 2 (thorough: also 3) goroutines on different matches under the controlled runtime; every schedule with at most 3 (quick) / 4 (thorough) deviations (one less with 3 goroutines), with scheduling points at every context look-up, pool mutex and atomic operation, and the vector-clock race detector on fields and package variables of expressions, stdlib, funcfile and slicepool. Oracle: every evaluation equals the unoptimised evaluation of that match alone. Non-trivial = more than one goroutine switch."
+			return "one compiled expression per program (C17: @map/@filter/@reduce/@for/@slice/@in with named keys, nested map inside map and inside filter; C10: funcs-file functions with 1-3 arguments, nested calls and missing arguments, the cached time format, mixed constant folding; plus pair programs in which the goroutines with an odd index evaluate a SECOND, different expression compiled by the same builder - map vs reduce, nested map vs filter, @for vs map, two funcs-file functions, a funcs function vs builtins: different compiled expressions share the package-level pools; each compiled with and without optimisation) evaluated twice by each of 2 (thorough: also 3) goroutines on different matches under the controlled runtime; every schedule with at most 3 (quick) / 4 (thorough) deviations (one less with 3 goroutines), with scheduling points at every context look-up, pool mutex and atomic operation, and the vector-clock race detector on fields and package variables of expressions, stdlib, funcfile and slicepool. Programs with array helpers also start with the shared sub-context pool holding one object and none (the boundary a run with many workers and nested helpers reaches). Oracle: every evaluation equals the unoptimised evaluation of that match alone. Non-trivial = more than one goroutine switch."
 		},
 		Assumptions: func(string) []string {
 			return []string{"state captured in closure-local variables is not under the race detector; its corruption is observed through wrong results at the look-up scheduling points"}
